@@ -51,24 +51,29 @@ impl Engine for E {
             floors.extend([
                 f("hostile.oob_pointer", 500, 20_000),
                 f("hostile.huge_len", 100, 4_000),
-                f("outcome.success", 2000, 100_000),
+                f("outcome.success", 1200, 60_000),
                 f("outcome.reject", 200, 10_000),
                 f("outcome.trap", 1000, 50_000),
                 f("outcome.out_of_energy", 5, 200),
-                f("energy.exact", 1500, 80_000),
+                f("energy.exact", 1200, 60_000),
                 f("energy.lower_bound", 100, 5_000),
                 f("budget.ooe_observed", 1000, 50_000),
                 f("budget.exact_remaining", 800, 40_000),
                 f("charge.short_budget_refused", 1000, 50_000),
                 f("charge.short_budget_refused.huge_len", 20, 1000),
                 f("alloc.delta_checked", 800, 40_000),
-                f("interrupt.resumed", 1000, 50_000),
+                f("grow.charged", 150, 7_000),
+                f("grow.charge_past_u32", 40, 2_000),
+                f("grow.million_budget_ooe", 60, 3_000),
+                f("interrupt.script_agrees.success", 200, 10_000),
+                f("interrupt.script_agrees.energy_exact_after_resume", 150, 7_000),
+                f("interrupt.resumed", 600, 30_000),
                 f("interrupt.state_updated", 100, 5_000),
                 f("interrupt.state_unchanged", 300, 15_000),
                 f("interrupt.rolled_back", 50, 2_500),
                 f("interrupt.stale_handle_after_update", 100, 5_000),
                 f("interrupt.handle_used_after_unchanged", 100, 5_000),
-                f("interrupt.deterministic_reruns", 500, 25_000),
+                f("interrupt.deterministic_reruns", 400, 20_000),
                 f("interrupt.response.failure", 30, 1500),
                 f("interrupt.response.contract_reject", 30, 1500),
                 f("interrupt.response.success_with_data", 100, 5000),
